@@ -64,6 +64,7 @@ type Config struct {
 	NoClient       bool
 	BothTransports bool // server listens on TCP and UDP
 	SecondPort     bool // server also listens on ServerPort+1 (same transports)
+	DialDelay      time.Duration // the client's dials take this long
 	// RawMux: drive pkg/protocol.Mux directly (the layer the mieru/mita daemons use)
 	// instead of the apis/client + apis/server wrappers: no socks5 request/response is
 	// exchanged, a client session stays in its initial state until it reads.
@@ -222,8 +223,8 @@ func (w *World) NewClient(user *appctlpb.User, src net.IP) (client.Client, error
 	cli := client.NewClient()
 	err := cli.Store(&client.ClientConfig{
 		Profile:      w.ClientProfile(user),
-		Dialer:       simnet.Dialer{N: w.Net, Source: src, C2S: w.Cfg.C2S, S2C: w.Cfg.S2C, PerConn: w.Cfg.OnStreamConn},
-		PacketDialer: simnet.PacketDialer{N: w.Net, Source: src},
+		Dialer:       simnet.Dialer{N: w.Net, Source: src, C2S: w.Cfg.C2S, S2C: w.Cfg.S2C, PerConn: w.Cfg.OnStreamConn, Delay: w.Cfg.DialDelay},
+		PacketDialer: simnet.PacketDialer{N: w.Net, Source: src, Delay: w.Cfg.DialDelay},
 	})
 	if err != nil {
 		return nil, fmt.Errorf("client Store: %w", err)
